@@ -38,7 +38,7 @@ func C02(run *vf.Run) {
 		CallNames:    vf.Pick(run, `{"PRH", "PRB", "PRSH", "PRSB", "PL"}`, `{"PRH", "PRB", "PRSH", "PRSB", "PL", "WREQ"}`),
 		DisruptKinds: vf.Pick(run, `{"deny", "redirect", "ctlDet", "ctlOn"}`, `{"deny", "drop", "redirect301late", "ctlDet", "ctlOn", "ctlOff"}`),
 		Phases2:      "{1, 2, 3, 4, 5}", Qs: "{1, 2, 3, 4, 5}", ReqShapes: vf.Pick(run, `{"off/Reject"}`, `{"off/Reject", "on/Reject"}`), RespShapes: `{"off/Reject"}`,
-		Workers:      14, Timeout: vf.Pick(run, 15*time.Minute, 120*time.Minute), Relevant: rel})
+		Workers: 14, Timeout: vf.Pick(run, 15*time.Minute, 120*time.Minute), Relevant: rel})
 }
 
 // C10: body buffering is byte-faithful and limits are enforced exactly.
